@@ -110,7 +110,9 @@ fn shrink_pipes() {
     }
     if let Ok(rd) = std::fs::read_dir("/proc/self/fd") {
         for e in rd.flatten() {
-            let is_pipe = std::fs::read_link(e.path()).map(|l| l.to_string_lossy().starts_with("pipe:")).unwrap_or(false);
+            // only the pipes this process writes into (flags ...1 = O_WRONLY): the solver's answers must never block it
+            let write_end = std::fs::read_to_string(format!("/proc/self/fdinfo/{}", e.file_name().to_string_lossy())).map(|t| t.lines().any(|l| l.starts_with("flags:") && l.trim_end().ends_with('1'))).unwrap_or(false);
+            let is_pipe = write_end && std::fs::read_link(e.path()).map(|l| l.to_string_lossy().starts_with("pipe:")).unwrap_or(false);
             if let (true, Ok(fd)) = (is_pipe, e.file_name().to_string_lossy().parse::<i32>()) {
                 unsafe { libc::fcntl(fd, libc::F_SETPIPE_SZ, 4096) };
             }
